@@ -74,17 +74,20 @@ FinalClauses ==
 (* ---- failure were reconstructed from the RNG log; the specification says which error the state leads to.        ---- *)
 IsDead == "dead" \in DOMAIN T
 DeadD == Tr(T.dead.d)
+(* Which exception class a dead end raises, and at which of the draws of the step it is noticed, is incidental  *)
+(* (today: IndexError from an empty population, ValueError from all-zero weights, OSError from the complement    *)
+(* lookup); what the specification demands is that the run raised BECAUSE the state admits no growth step for   *)
+(* the site that was drawn (or no site at all).                                                                  *)
 DeadEndExplained ==
   /\ S.weight < K.target                                   \* growth was still required
+  /\ T.dead.outcome # "ok"
   /\ CASE T.dead.completed_draws = 0 ->                     \* no growth site could be drawn
-             \/ (AllOpen(S) = {} /\ T.dead.outcome \in {"exc:IndexError", "exc:ValueError"})
-             \/ (AllOpen(S) # {} /\ K.react # {} /\ (\A d \in AllOpen(S) : ~ReactPos(K, d)) /\ T.dead.outcome = "exc:ValueError")
+             \/ AllOpen(S) = {}
+             \/ (K.react # {} /\ \A d \in AllOpen(S) : ~ReactPos(K, d))
        [] T.dead.completed_draws = 2 ->                     \* a site was drawn, no partner could be
              /\ DeadD \in AllOpen(S) /\ ReactPos(K, DeadD)
-             /\ \/ (T.dead.attempted_draws = 2 /\ Compl(K, DeadD) = {} /\ DeadD[1] # "$" /\ T.dead.outcome = "exc:OSError")
-                \/ (T.dead.attempted_draws = 3 /\ Compl(K, DeadD) = {} /\ T.dead.outcome = "exc:IndexError")
-                \/ (T.dead.attempted_draws = 3 /\ Compl(K, DeadD) # {} /\ HasRow(K, DeadD)
-                      /\ (\A p \in Compl(K, DeadD) : ~CondPos(K, DeadD, p)) /\ T.dead.outcome = "exc:ValueError")
+             /\ \/ Compl(K, DeadD) = {}
+                \/ (HasRow(K, DeadD) /\ \A p \in Compl(K, DeadD) : ~CondPos(K, DeadD, p))
        [] OTHER -> FALSE
 
 Init == /\ tid \in 1..Len(Traces) /\ l = 1 /\ bad = {}
